@@ -635,15 +635,27 @@ def gen_sigs(tier, r, table_sigs):
 ASSUME_SEL = 0x4C63E562
 
 
-def _fwd_code(target):
-    # CALLDATASIZE PUSH0 PUSH0 CALLDATACOPY; CALL(gas, target, 0, 0, CALLDATASIZE, 0, 0); POP; STOP
-    return bytes([0x36, 0x5F, 0x5F, 0x37, 0x5F, 0x5F, 0x36, 0x5F, 0x5F, 0x73]) + target.to_bytes(20, "big") + bytes([0x5A, 0xF1, 0x50, 0x00])
+# what a calling frame does with the success flag of the nested call: "ignore" (POP) or "assume_ok" -- the common
+# `(bool ok,) = target.call(data); vm.assume(ok);`.  It must make no difference: a failed assertion ends the path in the
+# failing frame, the caller is never resumed with ok = 0 (where vm.assume(ok) would discard the path, failure included)
+_AFTER_CALL = {
+    "ignore": bytes([0x50, 0x00]),
+    # [ok] PUSH4 assume-selector PUSH1 0xE0 SHL PUSH0 MSTORE; PUSH1 4 MSTORE (mem[4:36] = ok); CALL(gas, hevm, 0, 0, 36, 0, 0); POP; STOP
+    "assume_ok": (bytes([0x63]) + (0x4C63E562).to_bytes(4, "big") + bytes([0x60, 0xE0, 0x1B, 0x5F, 0x52, 0x60, 0x04, 0x52])
+                  + bytes([0x5F, 0x5F, 0x60, 0x24, 0x5F, 0x5F, 0x73]) + HEVM.to_bytes(20, "big") + bytes([0x5A, 0xF1, 0x50, 0x00])),
+}
 
 
-def _root_code(target):
-    # copy calldata; CALL(hevm, mem[0:36]) (the vm.assume prefix); CALL(target, mem[36:]); STOP
+def _fwd_code(target, after="ignore"):
+    # CALLDATASIZE PUSH0 PUSH0 CALLDATACOPY; CALL(gas, target, 0, 0, CALLDATASIZE, 0, 0); <after>
+    return bytes([0x36, 0x5F, 0x5F, 0x37, 0x5F, 0x5F, 0x36, 0x5F, 0x5F, 0x73]) + target.to_bytes(20, "big") + bytes([0x5A, 0xF1]) + _AFTER_CALL[after]
+
+
+def _root_code(target, after="ignore"):
+    # copy calldata; CALL(hevm, mem[0:36]) (the vm.assume prefix); CALL(target, mem[36:]); <after>
     return (bytes([0x36, 0x5F, 0x5F, 0x37, 0x5F, 0x5F, 0x60, 0x24, 0x5F, 0x5F, 0x73]) + HEVM.to_bytes(20, "big") + bytes([0x5A, 0xF1, 0x50])
-            + bytes([0x5F, 0x5F, 0x60, 0x24, 0x36, 0x03, 0x60, 0x24, 0x5F, 0x73]) + target.to_bytes(20, "big") + bytes([0x5A, 0xF1, 0x50, 0x00]))
+            + bytes([0x5F, 0x5F, 0x60, 0x24, 0x36, 0x03, 0x60, 0x24, 0x5F, 0x73]) + target.to_bytes(20, "big") + bytes([0x5A, 0xF1])
+            + (_AFTER_CALL[after] if target != HEVM else _AFTER_CALL["ignore"]))
 
 
 def _seq_code(chunks):
@@ -741,9 +753,10 @@ def _impl_l2(case):
     for i, a in enumerate(addrs):
         tgt = addrs[i + 1] if i < depth else HEVM
         if seq is None:
-            code[con_addr(a)] = Contract(_root_code(tgt) if i == 0 else _fwd_code(tgt))
+            after = case.get("after", "ignore") if i < depth else "ignore"   # the frame that calls hevm itself just goes on
+            code[con_addr(a)] = Contract(_root_code(tgt, after) if i == 0 else _fwd_code(tgt, after))
         else:
-            code[con_addr(a)] = Contract(_fwd_code(tgt) if i < depth else _seq_code(chunks))
+            code[con_addr(a)] = Contract(_fwd_code(tgt, case.get("after", "ignore")) if i < depth else _seq_code(chunks))
     this = con_addr(addrs[0])
     message = Message(target=this, caller=z3.BitVec("msg_sender", 160), origin=z3.BitVec("tx_origin", 160),
                       value=z3.BitVecVal(0, 256), data=data, call_scheme=EVM.CALL)
@@ -813,7 +826,8 @@ def gen_l2(tier, r, table):
     def add(depth, assume, sig, data, syms=(), vals=None, mode="assert"):
         sel, d = by_sig[sig] if sig in by_sig else (ASSUME_SEL, None)
         cases.append({"kind": "l2", "mode": mode, "depth": depth, "assume": assume, "sig": sig, "sel": sel,
-                      "descr": list(d) if d else None, "segs": segs_of(data, syms), "vals": vals or [{}]})
+                      "descr": list(d) if d else None, "segs": segs_of(data, syms), "vals": vals or [{}],
+                      "after": "assume_ok" if depth and len(cases) % 2 else "ignore"})
 
     T = ["const", 1]
     for depth in range(4):
@@ -926,7 +940,8 @@ def check_l2(rep, bad, l2, impl2, res2):
     enc = {"unsat": 0, "sat": 1, "unknown": 2}
     for k, (c, im) in enumerate(zip(l2, impl2)):
         d = tuple(c["descr"]) if c["descr"] else None
-        shown = {"l2": True, "mode": c["mode"], "depth": c["depth"], "assume": c["assume"], "sig": c["sig"], "sel": c["sel"], "segs": c["segs"]}
+        shown = {"l2": True, "mode": c["mode"], "depth": c["depth"], "assume": c["assume"], "sig": c["sig"], "sel": c["sel"], "segs": c["segs"], "after": c.get("after", "ignore")}
+        rep.count("l2_callers", c.get("after", "ignore") if c["depth"] else "no-caller")
         rep.count("l2_depth", c["depth"])
         rep.count("l2_mode", c["mode"] + ("/hard" if any(s[0] == "m" for s in c["segs"]) else "/symbolic" if any(s[0] == "s" for s in c["segs"]) else "/concrete"))
         if im.get("checks"):
@@ -1054,7 +1069,8 @@ def gen_l2seq(tier, r, table):
     cases = []
 
     def add(depth, steps, tag):
-        cases.append({"kind": "l2seq", "depth": depth, "steps": steps, "vals": vals(16 if thorough else 9), "tag": tag})
+        cases.append({"kind": "l2seq", "depth": depth, "steps": steps, "vals": vals(16 if thorough else 9), "tag": tag,
+                      "after": "assume_ok" if depth and len(cases) % 2 else "ignore"})
 
     for depth in range(4):
         u = unsupported[depth % len(unsupported)]
@@ -1123,7 +1139,8 @@ def check_l2seq(rep, bad, cases, impls, res):
     for k, (c, im) in enumerate(zip(cases, impls)):
         steps = c["steps"]
         descr = "; ".join(st["sig"] if st["kind"] == "assert" else f"assume({st['assume']})" for st in steps)
-        shown = {"l2seq": True, "depth": c["depth"], "steps": steps}
+        shown = {"l2seq": True, "depth": c["depth"], "steps": steps, "after": c.get("after", "ignore")}
+        rep.count("l2_callers", c.get("after", "ignore") if c["depth"] else "no-caller")
         rep.count("l2seq_depth", c["depth"])
         rep.count("l2seq_shape", c["tag"])
         rep.count("l2seq_len", len(steps))
@@ -1414,7 +1431,7 @@ def replay(rep, body):
         case = f.get("case") or {}
         print(f.get("kind"), ":", (f.get("what") or "")[:300])
         if case.get("l2seq"):
-            c = {"kind": "l2seq", "depth": case["depth"], "steps": case["steps"], "vals": [case.get("valuation") or {}]}
+            c = {"kind": "l2seq", "depth": case["depth"], "steps": case["steps"], "vals": [case.get("valuation") or {}], "after": case.get("after", "ignore")}
             print("L2s case      : depth", c["depth"], [st["sig"] if st["kind"] == "assert" else st for st in c["steps"]], c["vals"])
             print("implementation:", impl_l2(c))
             if case.get("valuation"):
@@ -1423,7 +1440,7 @@ def replay(rep, body):
         if case.get("l2"):
             d = [list(x) for x in spec_descrs() if render(x) == case.get("sig")]
             c = {"kind": "l2", "mode": case["mode"], "depth": case["depth"], "assume": case["assume"], "sig": case["sig"], "sel": case["sel"],
-                 "descr": d[0] if d else None, "segs": case["segs"], "vals": [case.get("valuation") or {}]}
+                 "descr": d[0] if d else None, "segs": case["segs"], "vals": [case.get("valuation") or {}], "after": case.get("after", "ignore")}
             print("L2 case       :", {k: c[k] for k in ("mode", "depth", "assume", "sig", "segs", "vals")})
             print("implementation:", impl_l2(c))
             if d:
